@@ -206,6 +206,14 @@ pub struct AssetStats {
     pub downloads_active: usize,
 }
 
+/// (class, uuid, bytes) of everything this peer's endpoint serves
+pub fn served_assets(world: &World) -> Vec<(&'static str, Uuid, Vec<u8>)> {
+    world
+        .get_resource::<SyncAssetTransfer>()
+        .map(|t| t.verif_served())
+        .unwrap_or_default()
+}
+
 pub fn asset_stats(world: &World) -> Option<AssetStats> {
     world
         .get_resource::<SyncAssetTransfer>()
@@ -240,7 +248,11 @@ pub fn tracker_stats(world: &World) -> Option<TrackerStats> {
             .iter()
             .map(|c| (c.id, c.name.clone()))
             .collect(),
-        handle_tokens: t.pushed_handles_from_network.keys().copied().collect(),
+        handle_tokens: t
+            .pushed_handles_from_network
+            .iter()
+            .flat_map(|(u, n)| std::iter::repeat(*u).take(*n))
+            .collect(),
         sync_materials: t.sync_materials,
         sync_meshes: t.sync_meshes,
         sync_audios: t.sync_audios,
